@@ -110,6 +110,7 @@ type world struct {
 	state  sm.State
 	times  map[string]bracket // stored change time of each item
 	eq     bool
+	smu    sync.Mutex
 	subs   []*subscriber
 	trace  []string
 	isVal  bool
@@ -209,8 +210,19 @@ func specOf(s *subscriber) string {
 	return s.spec.String()
 }
 
+// openParkedJoin subscribes without judging the seed (used while the subscribe call itself is parked inside the library).
+func (w *world) openParkedJoin(spec subSpec) bool {
+	w.subscribe(spec)
+	return true
+}
+
 // open subscribes and checks the seed.
 func (w *world) open(spec subSpec) bool {
+	s := w.subscribe(spec)
+	return w.checkSeed(s)
+}
+
+func (w *world) subscribe(spec subSpec) *subscriber {
 	ctx, cancel := context.WithCancel(context.Background())
 	s := &subscriber{spec: spec, cancel: cancel}
 	if w.isVal {
@@ -238,7 +250,14 @@ func (w *world) open(spec subSpec) bool {
 			s.mu.Unlock()
 		}()
 	}
+	w.smu.Lock()
 	w.subs = append(w.subs, s)
+	w.smu.Unlock()
+	return s
+}
+
+func (w *world) checkSeed(s *subscriber) bool {
+	spec := s.spec
 	w.trace = append(w.trace, "open "+spec.String())
 	if _, ok := w.r.MustQuiesce("c04-open"); !ok {
 		return false
@@ -523,6 +542,7 @@ func run(r *vk.Run) {
 	r.Describe("one writer at a time; histories over an alphabet of successful and failing Set/Add/Update/Delete calls (each with and without WithWriteTime) on a Value and a Collection, from initial contents {empty, one, many}, with backpressured subscribers (updates-only x read mask {none, 3 masks, empty} x equivalence on/off) opened before every step; after every step the process is quiescent and every subscriber's new events are compared with the writer's log (sequential model). Exhaustive for lengths <= 2 (thorough: <= 3), random histories of length 4 (quick) / 100 (thorough). Distinct = (resource, equivalence, initial contents, subscriber options, op-name sequence).",
 		"time: the resource gets a counting fake clock; with WithWriteTime(t) the event time must equal t, otherwise it must be one of the clock readings taken during the call, and a seed must carry a reading taken during the last successful write of that item",
 		"the equivalence used is an equivalence relation (same default_int32) and is applied to what the subscriber holds, i.e. to read-masked values")
+	forcedJoin(r)
 	idx := 0
 	for _, isVal := range []bool{false, true} {
 		ops := colOps()
